@@ -323,69 +323,247 @@ def seek_spec():
 
 
 # ---------------------------------------------------------------------------
-# ITER-CONTINUE (Python _TreeItems.__iter__)
+# ITER-CONTINUE / TREE-EXCLUDE (Python _TreeItems.__iter__)
+#
+# The generator is walked concretely over a chain of three leaves for every
+# valuation of (which leaves yield something) x (lower bound omitted / None /
+# given) x (upper bound likewise) x (excludemin, excludemax).  Recorded: the
+# leaves visited and the (min, max, excludemin, excludemax) handed to the
+# range computation of each.  Everything the walk does not understand is an
+# AnalysisError (fail closed).
 
-def iter_continue():
+class _Mark(object):
+    def __init__(self, name):
+        self.name = name
+
+    def __repr__(self):
+        return self.name
+
+
+MARK = _Mark("_marker")
+KEYLO = _Mark("<min key>")
+KEYHI = _Mark("<max key>")
+NLEAVES = 3
+
+
+class _Stop(Exception):
+    pass
+
+
+class _IterWalk(object):
+    def __init__(self, fn, ys, iterargs):
+        self.fn = fn
+        self.ys = ys
+        self.env = {"_marker": MARK, "None": None, "True": True, "False": False}
+        self.selfattrs = {"firstbucket": 0, "itertype": "iterkeys", "iterargs": iterargs}
+        self.visits = []
+
+    def ev(self, e):
+        if isinstance(e, ast.Constant):
+            return e.value
+        if isinstance(e, ast.Name):
+            if e.id not in self.env:
+                raise AnalysisError("tree-iter: unknown name %s" % e.id)
+            return self.env[e.id]
+        if isinstance(e, ast.Attribute):
+            if isinstance(e.value, ast.Name) and e.value.id == "self" and e.attr in self.selfattrs:
+                return self.selfattrs[e.attr]
+            if e.attr == "_next":
+                b = self.ev(e.value)
+                if not isinstance(b, int) or isinstance(b, bool):
+                    raise AnalysisError("tree-iter: _next of %r" % (b,))
+                return b + 1 if b + 1 < NLEAVES else None
+            raise AnalysisError("tree-iter: attribute %s" % pyfront.unparse(e))
+        if isinstance(e, ast.Tuple):
+            return tuple(self.ev(x) for x in e.elts)
+        if isinstance(e, ast.UnaryOp) and isinstance(e.op, ast.Not):
+            return not self.ev(e.operand)
+        if isinstance(e, ast.BoolOp):
+            v = None
+            for x in e.values:
+                v = self.ev(x)
+                if isinstance(e.op, ast.And) and not v:
+                    return v
+                if isinstance(e.op, ast.Or) and v:
+                    return v
+            return v
+        if isinstance(e, ast.IfExp):
+            return self.ev(e.body) if self.ev(e.test) else self.ev(e.orelse)
+        if isinstance(e, ast.Compare) and len(e.ops) == 1:
+            l, r = self.ev(e.left), self.ev(e.comparators[0])
+            op = e.ops[0]
+            if isinstance(op, ast.Is):
+                return l is r
+            if isinstance(op, ast.IsNot):
+                return l is not r
+            if isinstance(op, (ast.Eq, ast.NotEq, ast.Lt, ast.LtE, ast.Gt, ast.GtE)) and \
+                    all(isinstance(x, int) for x in (l, r)):
+                return {ast.Eq: l == r, ast.NotEq: l != r, ast.Lt: l < r, ast.LtE: l <= r,
+                        ast.Gt: l > r, ast.GtE: l >= r}[type(op)]
+            raise AnalysisError("tree-iter: comparison %s" % pyfront.unparse(e))
+        if isinstance(e, ast.BinOp) and isinstance(e.op, ast.Add):
+            l, r = self.ev(e.left), self.ev(e.right)
+            if isinstance(l, tuple) and isinstance(r, tuple):
+                return l + r
+            raise AnalysisError("tree-iter: + of %s" % pyfront.unparse(e))
+        if isinstance(e, ast.Subscript):
+            v = self.ev(e.value)
+            if not isinstance(v, tuple):
+                raise AnalysisError("tree-iter: subscript of %s" % pyfront.unparse(e))
+            if isinstance(e.slice, ast.Slice):
+                lo = self.ev(e.slice.lower) if e.slice.lower is not None else None
+                hi = self.ev(e.slice.upper) if e.slice.upper is not None else None
+                if e.slice.step is not None:
+                    raise AnalysisError("tree-iter: slice step")
+                return v[lo:hi]
+            i = self.ev(e.slice)
+            if not isinstance(i, int) or not -len(v) <= i < len(v):
+                raise AnalysisError("tree-iter: index %s" % pyfront.unparse(e))
+            return v[i]
+        if isinstance(e, ast.Call) and isinstance(e.func, ast.Name) and len(e.args) == 1 \
+                and not e.keywords and e.func.id in ("len", "tuple", "bool"):
+            v = self.ev(e.args[0])
+            if e.func.id == "bool":
+                return bool(v)
+            if not isinstance(v, tuple):
+                raise AnalysisError("tree-iter: %s of a non-tuple" % e.func.id)
+            return len(v) if e.func.id == "len" else tuple(v)
+        raise AnalysisError("tree-iter: expression %s" % pyfront.unparse(e))
+
+    def leaf_call(self, e):
+        """getattr(<leaf>, itertype)(args...) -> (leaf, args)"""
+        if not (isinstance(e, ast.Call) and isinstance(e.func, ast.Call)
+                and isinstance(e.func.func, ast.Name) and e.func.func.id == "getattr"
+                and len(e.func.args) == 2):
+            raise AnalysisError("tree-iter: loop iterable %s" % pyfront.unparse(e))
+        leaf = self.ev(e.func.args[0])
+        args = []
+        for a in e.args:
+            if isinstance(a, ast.Starred):
+                v = self.ev(a.value)
+                if not isinstance(v, tuple):
+                    raise AnalysisError("tree-iter: *%s" % pyfront.unparse(a.value))
+                args.extend(v)
+            else:
+                args.append(self.ev(a))
+        names = ["min", "max", "excludemin", "excludemax"]
+        for kw in e.keywords:
+            if kw.arg not in names:
+                raise AnalysisError("tree-iter: keyword %s" % kw.arg)
+            while len(args) <= names.index(kw.arg):
+                args.append((MARK, MARK, False, False)[len(args)])
+            args[names.index(kw.arg)] = self.ev(kw.value)
+        if len(args) > 4:
+            raise AnalysisError("tree-iter: %d range arguments" % len(args))
+        args += list((MARK, MARK, False, False)[len(args):])
+        return leaf, tuple(args)
+
+    def assign(self, tgt, val):
+        if isinstance(tgt, ast.Name):
+            self.env[tgt.id] = val
+        elif isinstance(tgt, (ast.Tuple, ast.List)):
+            if not isinstance(val, tuple) or len(val) != len(tgt.elts):
+                raise AnalysisError("tree-iter: unpacking %d values into %d targets" % (
+                    len(val) if isinstance(val, tuple) else -1, len(tgt.elts)))
+            for t, v in zip(tgt.elts, val):
+                self.assign(t, v)
+        else:
+            raise AnalysisError("tree-iter: assignment target %s" % pyfront.unparse(tgt))
+
+    def run(self, stmts):
+        for st in stmts:
+            if isinstance(st, ast.Assign) and len(st.targets) == 1:
+                self.assign(st.targets[0], self.ev(st.value))
+            elif isinstance(st, ast.While):
+                guard = 0
+                while self.ev(st.test):
+                    guard += 1
+                    if guard > 10:
+                        raise AnalysisError("tree-iter: loop does not advance")
+                    self.run(st.body)
+            elif isinstance(st, ast.For):
+                leaf, args = self.leaf_call(st.iter)
+                if not isinstance(leaf, int) or isinstance(leaf, bool):
+                    raise AnalysisError("tree-iter: iterating over %r" % (leaf,))
+                self.visits.append((leaf, args))
+                if self.ys[leaf]:
+                    self.assign(st.target, KEYLO)
+                    self.run(st.body)
+            elif isinstance(st, ast.If):
+                self.run(st.body if self.ev(st.test) else st.orelse)
+            elif isinstance(st, ast.Return):
+                raise _Stop()
+            elif isinstance(st, ast.Expr) and isinstance(st.value, (ast.Yield, ast.Constant)):
+                pass
+            elif isinstance(st, ast.Pass):
+                pass
+            else:
+                raise AnalysisError("tree-iter: statement %s" % pyfront.unparse(st)[:60])
+
+
+def _tree_iter_fn():
     tree = pyfront.base_py()
     fn = pyfront.class_members(pyfront.classes(tree)["_TreeItems"]).get("__iter__")
     if not isinstance(fn, ast.FunctionDef):
         raise AnalysisError("anchor vanished: _TreeItems.__iter__")
+    return fn
+
+
+def iter_continue():
+    fn = _tree_iter_fn()
     out = {}
-    for ys in itertools.product((True, False), repeat=3):
-        env = {"#bucket": 0}
-        visited = []
-
-        class Stop(Exception):
-            pass
-
-        def truth(t):
-            s = pyfront.unparse(t)
-            if s == "bucket is not None":
-                return env["#bucket"] < 3
-            if isinstance(t, ast.Name):
-                return bool(env[t.id])
-            if isinstance(t, ast.UnaryOp) and isinstance(t.op, ast.Not):
-                return not truth(t.operand)
-            raise AnalysisError("iter-continue: test %s" % s)
-
-        def run(stmts):
-            for st in stmts:
-                if isinstance(st, ast.Assign):
-                    tg = pyfront.unparse(st.targets[0])
-                    vs = pyfront.unparse(st.value)
-                    if tg == "bucket" and vs == "bucket._next":
-                        env["#bucket"] += 1
-                    elif isinstance(st.value, ast.Constant):
-                        env[tg] = st.value.value
-                    elif tg in ("bucket", "itertype", "iterargs"):
-                        pass
-                    else:
-                        raise AnalysisError("iter-continue: assignment %s" % pyfront.unparse(st))
-                elif isinstance(st, ast.While):
-                    guard = 0
-                    while truth(st.test):
-                        guard += 1
-                        if guard > 10:
-                            raise AnalysisError("iter-continue: loop does not advance")
-                        run(st.body)
-                elif isinstance(st, ast.For):
-                    visited.append(env["#bucket"])
-                    if ys[env["#bucket"]]:
-                        run(st.body)
-                elif isinstance(st, ast.If):
-                    run(st.body if truth(st.test) else st.orelse)
-                elif isinstance(st, ast.Return):
-                    raise Stop()
-                elif isinstance(st, ast.Expr):
-                    pass
-                else:
-                    raise AnalysisError("iter-continue: statement %s" % type(st).__name__)
+    for ys in itertools.product((True, False), repeat=NLEAVES):
+        w = _IterWalk(fn, ys, (MARK, MARK, False, False))
         try:
-            run(fn.body)
-        except Stop:
+            w.run(fn.body)
+        except _Stop:
             pass
-        out[ys] = visited
+        out[ys] = [v[0] for v in w.visits]
     return out
+
+
+def tree_exclude_table():
+    """{(min kind, max kind, excludemin, excludemax): [(leaf, exmin, exmax, min ok, max ok)]}
+    with every leaf yielding (so that all three are visited)."""
+    fn = _tree_iter_fn()
+    out = {}
+    for mn, mx, exmin, exmax in itertools.product(
+            (MARK, None, KEYLO), (MARK, None, KEYHI), (False, True), (False, True)):
+        w = _IterWalk(fn, (True,) * NLEAVES, (mn, mx, exmin, exmax))
+        try:
+            w.run(fn.body)
+        except _Stop:
+            pass
+        rows = []
+        for leaf, args in w.visits:
+            lo_ok = (args[0] is mn) or (mn in (MARK, None) and args[0] in (MARK, None))
+            hi_ok = (args[1] is mx) or (mx in (MARK, None) and args[1] in (MARK, None))
+            rows.append((leaf, bool(args[2]), bool(args[3]), lo_ok, hi_ok))
+        out[(repr(mn), repr(mx), exmin, exmax)] = rows
+    return out
+
+
+def tree_exclude_spec(key, row):
+    """None if the row is right, else the complaint."""
+    mn, mx, exmin, exmax = key
+    leaf, gmin, gmax, lo_ok, hi_ok = row
+    if not lo_ok or not hi_ok:
+        return "leaf %d is searched with different bounds than the caller gave" % leaf
+    if mn in ("_marker", "None"):
+        want = exmin and leaf == 0
+        if gmin != want:
+            return ("with the lower bound omitted, leaf %d gets excludemin=%s (the exclusion "
+                    "applies to the smallest key of the tree only)" % (leaf, gmin))
+    elif leaf == 0 and gmin != exmin:
+        return "leaf 0 (found for the given lower bound) gets excludemin=%s instead of %s" % (gmin, exmin)
+    if mx in ("_marker", "None"):
+        want = exmax and leaf == NLEAVES - 1
+        if gmax != want:
+            return ("with the upper bound omitted, leaf %d gets excludemax=%s (the exclusion "
+                    "applies to the largest key of the tree only)" % (leaf, gmax))
+    elif gmax != exmax:
+        return "leaf %d gets excludemax=%s instead of %s for a given upper bound" % (leaf, gmax, exmax)
+    return None
 
 
 def iter_spec(ys):
@@ -506,37 +684,248 @@ def bound_norm_c(tu):
 
 # ---------------------------------------------------------------------------
 # TREE-EXCLUDE (Python): an exclusive *omitted* bound must drop only the
-# overall smallest / largest key, so the exclusion flag of an omitted bound
-# must not reach the per-leaf range computation of every leaf.
+# overall smallest / largest key: decision table of the flags each leaf's range
+# computation receives (tree_exclude_table above).
 
 def tree_exclude_py(res):
-    tree = pyfront.base_py()
-    keys = pyfront.class_members(pyfront.classes(tree)["_Tree"]).get("keys")
-    it = pyfront.class_members(pyfront.classes(tree)["_TreeItems"]).get("__iter__")
-    if not isinstance(keys, ast.FunctionDef) or not isinstance(it, ast.FunctionDef):
-        raise AnalysisError("anchor vanished: _Tree.keys / _TreeItems.__iter__")
-    res.count("PY-TREE-EXCLUDE", 2)
-    # iterargs built from the raw flags?
-    raw = None
-    for a in ast.walk(keys):
-        if isinstance(a, ast.Assign) and pyfront.unparse(a.targets[0]) == "iterargs":
-            raw = pyfront.unparse(a.value)
-    per_leaf = any(isinstance(c, ast.Call) and any(isinstance(x, ast.Starred) and
-                                                   pyfront.unparse(x.value) == "iterargs" for x in c.args)
-                   for lp in ast.walk(it) if isinstance(lp, ast.While) for c in ast.walk(lp))
-    if raw is not None and "excludemin" in raw and "excludemax" in raw and per_leaf:
-        # is the flag cleared / applied once anywhere?
-        cleared = any(isinstance(a, ast.Assign) and "exclude" in pyfront.unparse(a.targets[0])
-                      for a in ast.walk(it)) or any(
-            isinstance(a, ast.Assign) and pyfront.unparse(a.targets[0]) in ("excludemin", "excludemax")
-            for a in ast.walk(keys))
-        if not cleared:
-            res.findings.add(dict(
-                rule="TREE-EXCLUDE", function="_TreeItems.__iter__", file=REL, line=it.lineno,
-                construct="exclusion flags of omitted bounds are applied to every leaf",
-                detail="_Tree.keys forwards (min, max, excludemin, excludemax) "
-                       "unchanged and _TreeItems.__iter__ hands them to the "
-                       "range computation of every leaf: with an omitted "
-                       "bound, excludemin/excludemax drop the first/last key "
-                       "of *each* leaf instead of only the overall smallest/"
-                       "largest key", path=[]))
+    tab = tree_exclude_table()
+    n = 0
+    for key, rows in sorted(tab.items()):
+        if [r[0] for r in rows] != list(range(NLEAVES)):
+            raise AnalysisError("tree-exclude: leaves visited %s" % [r[0] for r in rows])
+        for row in rows:
+            n += 1
+            bad = tree_exclude_spec(key, row)
+            if bad:
+                res.findings.add(dict(
+                    rule="TREE-EXCLUDE", function="_TreeItems.__iter__", file=REL, line=1,
+                    construct="min=%s max=%s excludemin=%s excludemax=%s: %s" % (key + (bad,)),
+                    detail="the lazy sequence hands every leaf its range arguments; "
+                           "with these arguments the result differs from the slice "
+                           "of the sorted contents", path=[]))
+    res.count("PY-TREE-EXCLUDE", n)
+
+
+# ---------------------------------------------------------------------------
+# UNBOUNDED-END (C BTree_rangeSearch): with a bound omitted, the end of the
+# range is the first / last entry of the leaf chain, moved by one entry when
+# the end is exclusive.  The two branches are walked symbolically for every
+# valuation of (exclusive, end leaf has more than one entry, chain has a single
+# leaf); leaves are the symbols FIRST, LAST, NEXT(FIRST), PREV(LAST), offsets
+# are polynomials over the leaf lengths.  A branch condition on the root's
+# child count (self->len) is not a function of those atoms: RANGE-SHAPE.
+
+def _leaflen(b):
+    return p_var("len(%s)" % b)
+
+
+class _ShapeDependent(Exception):
+    def __init__(self, cond):
+        self.cond = cond
+
+
+class _Goto(Exception):
+    def __init__(self, label):
+        self.label = label
+
+
+def c_unbounded_table(tu):
+    body = tu.body("BTree_rangeSearch")
+    ends = {}
+    for s in body.kids:
+        if s.k == "IfStmt" and len(s.kids) > 2:
+            c = strip(s.kids[0])
+            if c.k == "BinaryOperator" and c.v == "!=" and "_Py_NoneStruct" in text(c.kids[1]):
+                nm = path(c.kids[0])
+                if nm in ("min", "max") and nm not in ends:
+                    ends[nm] = s.kids[2]
+    if set(ends) != {"min", "max"}:
+        raise AnalysisError("anchor vanished: omitted-bound branches of BTree_rangeSearch (%s)" % sorted(ends))
+    table = {}
+    for which, branch in sorted(ends.items()):
+        bvar, ovar, xvar = (("lowbucket", "lowoffset", "excludemin") if which == "min"
+                            else ("highbucket", "highoffset", "excludemax"))
+        endleaf = "FIRST" if which == "min" else "LAST"
+        for excl, many, single in itertools.product((True, False), repeat=3):
+            env = {}
+
+            def leaf_eq(a, b):
+                if a == b:
+                    return True
+                pair = {a, b}
+                if pair == {"FIRST", "LAST"}:
+                    return single
+                if "NULL" in pair:
+                    o = (pair - {"NULL"}).pop()
+                    if o in ("NEXT(FIRST)", "PREV(LAST)"):
+                        return single
+                    if o in ("FIRST", "LAST"):
+                        return False
+                raise AnalysisError("unbounded-end: cannot compare leaves %s and %s" % (a, b))
+
+            def val(e):
+                e = strip(e)
+                if e.k == "IntegerLiteral":
+                    return p_const(int(e.v))
+                ci = const_int(e)
+                if ci is not None and e.k != "DeclRefExpr":
+                    return p_const(ci) if ci != 0 or "NULL" not in text(e) else "NULL"
+                p = path(e)
+                if p == "self->firstbucket":
+                    return "FIRST"
+                if p == "self->len":
+                    raise _ShapeDependent(p)
+                if p and p in env:
+                    return env[p]
+                if e.k == "MemberExpr" and e.n in ("len", "next"):
+                    b = val(e.kids[0])
+                    if not isinstance(b, str) or b == "NULL":
+                        raise AnalysisError("unbounded-end: %s of %r" % (e.n, b))
+                    if e.n == "len":
+                        return _leaflen(b)
+                    if b == "FIRST":
+                        return "NEXT(FIRST)"
+                    raise AnalysisError("unbounded-end: next of %s" % b)
+                if e.k == "CallExpr" and callee(e) == ("fn", "BTree_lastBucket"):
+                    return "LAST"
+                if e.k == "BinaryOperator" and e.v in ("+", "-"):
+                    l, r = val(e.kids[0]), val(e.kids[1])
+                    if isinstance(l, str) or isinstance(r, str):
+                        raise AnalysisError("unbounded-end: pointer arithmetic %s" % text(e))
+                    return p_add(l, r, 1 if e.v == "+" else -1)
+                raise AnalysisError("unbounded-end: value %s at %s:%s" % (text(e), e.f, e.l))
+
+            def int_cmp(op, l, r):
+                d = p_add(l, r, -1)         # l - r  as  k + a*len(end leaf)
+                mono = dict(d)
+                k = mono.pop((), 0)
+                if not mono:
+                    v = k
+                else:
+                    lv = tuple(_leaflen(endleaf).keys())[0]
+                    if set(mono) != {lv} or mono[lv] != 1:
+                        raise AnalysisError("unbounded-end: comparison over %s" % show(d))
+                    if not many:
+                        v = k + 1           # len == 1
+                    else:                   # len >= 2:  d >= k + 2
+                        lo = k + 2
+                        if op in (">", ">=") and (lo > 0 or (op == ">=" and lo >= 0)):
+                            return True
+                        if op in ("<", "<=") and (lo > 0 or (op == "<" and lo >= 0)):
+                            return False
+                        if op == "==" and lo > 0:
+                            return False
+                        if op == "!=" and lo > 0:
+                            return True
+                        raise AnalysisError("unbounded-end: %s 0 undecided for %s" % (op, show(d)))
+                return {">": v > 0, ">=": v >= 0, "<": v < 0, "<=": v <= 0, "==": v == 0, "!=": v != 0}[op]
+
+            def cond(e):
+                e = strip(e)
+                if e.k == "UnaryOperator" and e.v == "!":
+                    return not cond(e.kids[0])
+                if e.k == "BinaryOperator" and e.v == "&&":
+                    return cond(e.kids[0]) and cond(e.kids[1])
+                if e.k == "BinaryOperator" and e.v == "||":
+                    return cond(e.kids[0]) or cond(e.kids[1])
+                if e.k == "DeclRefExpr" and e.n == xvar:
+                    return excl
+                if e.k == "BinaryOperator" and e.v in ("<", "<=", ">", ">=", "==", "!="):
+                    l, r = val(e.kids[0]), val(e.kids[1])
+                    if isinstance(l, str) or isinstance(r, str):
+                        l = "NULL" if not isinstance(l, str) and l == p_const(0) else l
+                        r = "NULL" if not isinstance(r, str) and r == p_const(0) else r
+                        if e.v not in ("==", "!=") or not (isinstance(l, str) and isinstance(r, str)):
+                            raise AnalysisError("unbounded-end: condition %s" % text(e))
+                        return leaf_eq(l, r) == (e.v == "==")
+                    return int_cmp(e.v, l, r)
+                v = val(e)
+                if isinstance(v, str):
+                    return not leaf_eq(v, "NULL")
+                return int_cmp("!=", v, p_const(0))
+
+            def run(s):
+                k = s.k
+                if k == "CompoundStmt":
+                    for c in s.kids:
+                        run(c)
+                elif k in ("DeclStmt",):
+                    for d in s.kids:
+                        if d.k == "VarDecl" and d.kids:
+                            env[d.n] = val(d.kids[-1])
+                elif k == "IfStmt":
+                    ctext = text(s.kids[0])
+                    if "setstate(" in ctext:
+                        # activation: follow the success side
+                        neg = strip(s.kids[0]).k == "UnaryOperator" and strip(s.kids[0]).v == "!"
+                        if neg:
+                            if len(s.kids) > 2:
+                                run(s.kids[2])
+                        else:
+                            run(s.kids[1])
+                        return
+                    if cond(s.kids[0]):
+                        run(s.kids[1])
+                    elif len(s.kids) > 2:
+                        run(s.kids[2])
+                elif k == "GotoStmt":
+                    raise _Goto(s.n)
+                elif k == "BinaryOperator" and s.v == "=":
+                    lp = path(s.kids[0])
+                    rhs = strip(s.kids[1])
+                    if rhs.k == "CallExpr" and callee(rhs) == ("fn", "PreviousBucket"):
+                        a0 = strip(rhs.kids[1])
+                        tgt = path(a0.kids[0]) if a0.k == "UnaryOperator" and a0.v == "&" else None
+                        if tgt is None or tgt not in env or val(rhs.kids[2]) != "FIRST":
+                            raise AnalysisError("unbounded-end: PreviousBucket call %s" % text(rhs))
+                        cur = env[tgt]
+                        if leaf_eq(cur, "FIRST"):
+                            env[lp] = p_const(0)
+                        elif cur == "LAST":
+                            env[tgt] = "PREV(LAST)"
+                            env[lp] = p_const(1)
+                        else:
+                            raise AnalysisError("unbounded-end: PreviousBucket of %s" % cur)
+                        return
+                    if lp is None:
+                        raise AnalysisError("unbounded-end: store %s" % text(s))
+                    env[lp] = val(s.kids[1])
+                elif k == "UnaryOperator" and s.v in ("++", "post++", "--", "post--"):
+                    lp = path(s.kids[0])
+                    env[lp] = p_add(env[lp], p_const(1), 1 if "+" in s.v else -1)
+                elif k in ("DoStmt", "NullStmt") or s.mo in ("assert", "Py_INCREF", "Py_DECREF",
+                                                           "Py_XDECREF", "PER_UNUSE"):
+                    pass
+                elif k == "CallExpr" and callee(s)[1] in ("Py_INCREF", "Py_DECREF", "_Py_INCREF", "_Py_DECREF"):
+                    pass
+                else:
+                    raise AnalysisError("unbounded-end: statement %s at %s:%s" % (k, s.f, s.l))
+
+            try:
+                run(branch)
+                b, o = env.get(bvar), env.get(ovar)
+                if not isinstance(b, str) or o is None or isinstance(o, str):
+                    raise AnalysisError("unbounded-end: %s end not computed (%r, %r)" % (which, b, o))
+                got = "%s[%s]" % (b, show(o))
+            except _Goto as g:
+                got = "EMPTY" if g.label.startswith("empty") else "ERR" if g.label.startswith("err") \
+                    else "goto " + g.label
+            except _ShapeDependent as sd:
+                got = "depends on the root's child count (%s)" % sd.cond
+            table[(which, excl, many, single)] = got
+    return table
+
+
+def c_unbounded_spec(which, excl, many, single):
+    if which == "min":
+        if not excl:
+            return "FIRST[%s]" % show(p_const(0))
+        if many:
+            return "FIRST[%s]" % show(p_const(1))
+        return "EMPTY" if single else "NEXT(FIRST)[%s]" % show(p_const(0))
+    last = _leaflen("LAST")
+    if not excl:
+        return "LAST[%s]" % show(p_add(last, p_const(1), -1))
+    if many:
+        return "LAST[%s]" % show(p_add(last, p_const(2), -1))
+    return "EMPTY" if single else "PREV(LAST)[%s]" % show(p_add(_leaflen("PREV(LAST)"), p_const(1), -1))
